@@ -1,6 +1,7 @@
 #!/bin/bash
 # usage: seed_matrix_scratch.sh <outfile> <dir-with-<name>/patch.diff> names...
 # like seed_matrix.sh but on a scratch copy of /repo (VERIF_REPO) with its own work directory, so that it can run
+# (PROPS="C06 C07" restricts the checks that are run; PROPS=target runs only the check of the property in the change's name)
 # in the background while /repo and /verif/work are in use; evidence/ and replays/ of /verif are NOT touched (HOME copy of check)
 OUT=$1; ROOT=$(readlink -f $2); shift 2
 S=$(mktemp -d /tmp/seedscratch-XXXX)
@@ -11,7 +12,8 @@ for n in "$@"; do
   rsync -a --delete --exclude target /repo/src/ $S/repo/src/
   (cd $S/repo && patch -s -p1 < $ROOT/$n/patch.diff) || { echo "$n patch failed" >> $OUT; continue; }
   out=""
-  for p in C01 C02 C03 C04 C05 C06 C07 C08 C09 C10 C11 C12 C13 C14 C15 C17; do
+  [ "$PROPS" = target ] && PL=${n:0:3} || PL=${PROPS:-C01 C02 C03 C04 C05 C06 C07 C08 C09 C10 C11 C12 C13 C14 C15 C17}
+  for p in $PL; do
     VERIF_REPO=$S/repo VERIF_WORK=$S/work ./check $p --tier quick $CHECK_ARGS > $S/log.txt 2>&1; rc=$?
     [ $rc -eq 1 ] && out="$out $p"
     [ $rc -eq 2 ] && out="$out $p?"
